@@ -23,6 +23,9 @@ sys.path.insert(0, os.path.join(os.path.dirname(os.path.abspath(__file__)), ".."
 from vlib import *
 from modbuild import *
 from c18_util import *
+from c18w_util import DIRECTED_SHAPES, random_shape, zero_module
+from c18w_util import shape_module as frame_shape_module
+import c18w_layer
 
 EXTRA = os.path.join(HARNESS, "moddrv_c18.inc")
 
@@ -972,6 +975,16 @@ def corpus(rng, tier):
                           idpool=[x for x in WIDE_IDS if x < 128], **({"optional_types": (0,), "directed": rng.choice(["one", "two", None])} if i % 2 == 0 else {"idopt": True}))
         mq["family"] = "unset"
         mods.append((mq, "cn"))
+    # ---- round 4: the SHAPE of the governing SEQUENCE (member names related by prefix / suffix / case, several class-field members,
+    # two open types governed by different members, OPTIONAL / late identifiers, dotted references), directed first, random after
+    for i, (tag, ms) in enumerate(DIRECTED_SHAPES):
+        mods.append((frame_shape_module("MF%d" % i, ms, tag), "cn" if i % 3 else "wide"))
+    for i in range(4 if q else 20):
+        mods.append((frame_shape_module("MG%d" % i, random_shape(rng)), "cn" if i % 2 == 0 else "wide"))
+    # ---- round 4: rows whose type has a zero-bit / zero-octet encoding next to rows of 1, 2, 3 octets
+    zorders = [None, rng.choice(["zero-last", "shuffled", "alternate"])] if q else [None, "zero-last", "shuffled", "alternate"]
+    for i, o in enumerate(zorders):
+        mods.append((zero_module("MZ%d" % i, rng, order=o), "cn" if i % 2 == 0 else "wide"))
     if not q:
         # many rows (presence index beyond one octet)
         mods.append((g.module("MX0", ids=[7 * i for i in range(300)], ncols=1, simple=True, untagged=False), "wide"))
@@ -1029,6 +1042,11 @@ def main(tier):
             else:
                 run.known_finding(p["probe"], p["name"])
         for m in mods:
+            if m.get("family") == "frameshape":
+                nmods += 1
+                run.count("modules_%s_frameshape" % m["fs"])
+                c18w_layer.check_shape(run, rng, model, m, tier, light=not m["primary"])
+                continue
             nmods += 1
             run.count("modules_%s_%s%s%s" % (m["fs"], m["idkind"], "_untagged" if m["untagged"] else "", "_lone" if m["lone"] else ""))
             run.count("rows_%d" % len(m["rows"]) if len(m["rows"]) <= 8 else "rows_9+")
@@ -1081,6 +1099,8 @@ def main(tier):
                     check_table(run, model, m)
                 continue
             check_module(run, rng, model, m, tier, "full" if m["primary"] else "light")
+            if m.get("zero") and (m["primary"] or m["fs"] in ("cn", "wide")):
+                c18w_layer.check_zero(run, model, m, frame_tokens(m, "wide" if wide_rep(m) else "comp"), tier)
     tb = ["Coq 8.16.1 kernel; vm_compute for refuted witnesses and Examples",
           "axioms under Print Assumptions: " + (", ".join(sorted(axioms)) or "none (Closed under the global context)"),
           "extraction: ExtrOcamlBasic only, per-area files; OCaml 4.13.1; zarith for I/O",
